@@ -13,6 +13,7 @@ import (
 	"strings"
 
 	"github.com/cosmos/cosmos-proto/zzverif/corpus"
+	"google.golang.org/protobuf/compiler/protogen"
 	"google.golang.org/protobuf/proto"
 	"google.golang.org/protobuf/reflect/protodesc"
 	"google.golang.org/protobuf/reflect/protoreflect"
@@ -38,6 +39,62 @@ type GroupResult struct {
 	ReqPath  string   `json:"req_path"` // serialized request (replay)
 	Messages []string `json:"messages"` // full names of all messages (non map-entry)
 	Stderr   string   `json:"stderr,omitempty"`
+	// Surface lists the exported Go identifiers protoc-gen-go's naming rules assign to the
+	// entities of the requested files (computed with protogen from the request, not read from the
+	// plugin's output): the worker is linked against exactly these names.
+	Surface []SurfaceEntry `json:"surface,omitempty"`
+}
+
+type SurfaceEntry struct {
+	Pkg  string `json:"pkg"`  // Go import path
+	Go   string `json:"go"`   // exported identifier
+	Kind string `json:"kind"` // message | enum | enumval | ext
+	Full string `json:"full"` // protobuf full name
+	Num  int32  `json:"num"`  // enum value number
+}
+
+// surfaceOf derives the exported identifiers of the files to generate.
+func surfaceOf(req *pluginpb.CodeGeneratorRequest) []SurfaceEntry {
+	gen, err := protogen.Options{}.New(req)
+	if err != nil {
+		return nil
+	}
+	var out []SurfaceEntry
+	var enums func(es []*protogen.Enum)
+	enums = func(es []*protogen.Enum) {
+		for _, e := range es {
+			out = append(out, SurfaceEntry{Pkg: string(e.GoIdent.GoImportPath), Go: e.GoIdent.GoName, Kind: "enum", Full: string(e.Desc.FullName())})
+			for _, v := range e.Values {
+				out = append(out, SurfaceEntry{Pkg: string(v.GoIdent.GoImportPath), Go: v.GoIdent.GoName, Kind: "enumval", Full: string(e.Desc.FullName()), Num: int32(v.Desc.Number())})
+			}
+		}
+	}
+	exts := func(xs []*protogen.Extension) {
+		for _, x := range xs {
+			out = append(out, SurfaceEntry{Pkg: string(x.GoIdent.GoImportPath), Go: "E_" + x.GoIdent.GoName, Kind: "ext", Full: string(x.Desc.FullName())})
+		}
+	}
+	var msgs func(ms []*protogen.Message)
+	msgs = func(ms []*protogen.Message) {
+		for _, m := range ms {
+			if m.Desc.IsMapEntry() {
+				continue
+			}
+			out = append(out, SurfaceEntry{Pkg: string(m.GoIdent.GoImportPath), Go: m.GoIdent.GoName, Kind: "message", Full: string(m.Desc.FullName())})
+			enums(m.Enums)
+			exts(m.Extensions)
+			msgs(m.Messages)
+		}
+	}
+	for _, f := range gen.Files {
+		if !f.Generate {
+			continue
+		}
+		enums(f.Enums)
+		exts(f.Extensions)
+		msgs(f.Messages)
+	}
+	return out
 }
 
 func die(f string, a ...any) {
@@ -196,6 +253,7 @@ func cmdCorpus(args []string) {
 		res.ReqPath = filepath.Join(*root, "zzverif", "gen", g+".req.bin")
 		os.MkdirAll(filepath.Dir(res.ReqPath), 0o755)
 		os.WriteFile(res.ReqPath, reqBytes, 0o644)
+		res.Surface = surfaceOf(req)
 		resp, stderr, err := RunPlugin(*plugin, req, nil)
 		res.Stderr = trunc(stderr, 2000)
 		if err != nil {
